@@ -60,6 +60,28 @@ type c21Target struct {
 type c21Group struct {
 	Targets []c21Target `json:"t"`
 	Short   bool        `json:"short,omitempty"` // one value too few on the right-hand side (arity error)
+	Rest    int         `json:"rest,omitempty"`  // k > 0: the k-th target (after normalisation, if it is a whole variable) is a rest lvalue @x
+	RestN   int         `json:"restn,omitempty"` // number of values the rest lvalue receives (0..2)
+}
+
+// c21RestIdx is the index of the rest lvalue among the normalised targets, or -1.
+func c21RestIdx(g c21Group, targets []c21Target) int {
+	r := g.Rest - 1
+	if r < 0 || r >= len(targets) || targets[r].Elem != 0 {
+		return -1
+	}
+	return r
+}
+
+// c21RestRhs is the value a rest lvalue receives (a list of n fresh strings) and its source.
+func c21RestRhs(id, j, n int) (c21Val, string) {
+	n = ((n % 3) + 3) % 3
+	base := "v" + strconv.Itoa(id) + string(rune('a'+j)) + "r"
+	v := c21Val{K: 'l'}
+	for i := 0; i < n; i++ {
+		v.L = append(v.L, base+strconv.Itoa(i))
+	}
+	return v, strings.Join(v.L, " ")
 }
 
 type c21Stmt struct {
@@ -384,13 +406,17 @@ func c21TargetSrc(t c21Target) string {
 // assign models doAssign: arity check, then per lvalue save / set / register restore.
 func (m *c21Model) assign(id int, g c21Group, rc func(c21Deferred)) *c21Exc {
 	targets := c21NormGroup(g)
-	if g.Short {
+	rest := c21RestIdx(g, targets)
+	if g.Short && rest < 0 {
 		return &c21Exc{alts: []string{"other"}}
 	}
 	for j, t := range targets {
 		name := c21VarNames[t.Var]
 		cur := m.vars[name]
 		val, _ := c21Rhs(id, j, t)
+		if j == rest {
+			val, _ = c21RestRhs(id, j, g.RestN)
+		}
 		r := &c21Restore{name: name, whole: cur}
 		newVal := val
 		if t.Elem != 0 {
@@ -691,13 +717,21 @@ const c21LogArgs = " $s0 $s1 $s2 $l0 $m0 $g0 $g1"
 
 func c21GroupSrc(id int, g c21Group) string {
 	targets := c21NormGroup(g)
+	rest := c21RestIdx(g, targets)
 	var lhs, rhs []string
 	for j, t := range targets {
+		if j == rest {
+			lhs = append(lhs, "@"+c21TargetSrc(t))
+			if _, src := c21RestRhs(id, j, g.RestN); src != "" {
+				rhs = append(rhs, src)
+			}
+			continue
+		}
 		lhs = append(lhs, c21TargetSrc(t))
 		_, src := c21Rhs(id, j, t)
 		rhs = append(rhs, src)
 	}
-	if g.Short {
+	if g.Short && rest < 0 {
 		rhs = rhs[:len(rhs)-1]
 	}
 	return strings.Join(lhs, " ") + " = " + strings.Join(rhs, " ")
@@ -988,6 +1022,14 @@ func c21GenGroup(t *rapid.T) c21Group {
 		g.Targets = append(g.Targets, tg)
 	}
 	g.Short = rapid.IntRange(0, 29).Draw(t, "short") == 0
+	if rapid.IntRange(0, 5).Draw(t, "rest?") == 0 {
+		// a rest lvalue, mostly not in last position
+		g.Rest = rapid.IntRange(1, n).Draw(t, "rest")
+		if g.Rest == n && n > 1 && rapid.Bool().Draw(t, "restearly") {
+			g.Rest = 1
+		}
+		g.RestN = rapid.IntRange(0, 2).Draw(t, "restn")
+	}
 	return g
 }
 
